@@ -68,7 +68,11 @@ def make_config(rng, family):
         "raw": family == "hostile" or rng.random() < 0.05,
         "reentrant": rng.random() < 0.3,
         "stale_handle": rng.random() < 0.4,
+        "alias": rng.random() < 0.3,
+        "burst": rng.random() < (0.25 if family in ("window", "publisher", "general", "clean", "persistent") else 0.05),
     }
+    if family == "ids":
+        cfg["faults"]["reentrant"] = rng.random() < 0.7
     if family == "wire":
         cfg["faults"]["close"] = rng.random() < 0.3
     cfg["fault_rate"] = _w(rng, [(0.03, 3), (0.08, 3), (0.15, 2), (0.0, 1)])
@@ -213,8 +217,8 @@ class Gen(object):
             del st["k"]["qos"]          # documented default
         if h:
             st["h"] = h
-        if cfg["faults"]["reentrant"] and rng.random() < 0.15 and qos > 0:
-            if rng.random() < 0.25:
+        if cfg["faults"]["reentrant"] and rng.random() < (0.3 if self.fam == "ids" else 0.15) and qos > 0:
+            if rng.random() < (0.5 if self.fam == "ids" else 0.25):
                 st["then"] = [self.reaction(addr, "disconnect", "ok")]
             else:
                 st["then"] = [{"op": "app.call", "addr": addr, "m": "publish",
@@ -280,6 +284,9 @@ class Gen(object):
         payload = gen_text(rng, rng.randint(0, 5))
         if rng.random() < 0.1:
             payload = {"$": "barep", "s": "i", "n": rng.choice([125, 130, 16380, 16390])}
+        if self.fam in ("wire", "subscriber") and rng.random() < 0.012:
+            # remaining length that needs all four length bytes
+            payload = {"$": "barep", "s": "j", "n": rng.choice([2097140, 2097152, 2097200])}
         st = {"op": "brk.publish", "addr": addr, "qos": qos, "topic": gen_topic(rng), "payload": payload,
               "retain": rng.random() < 0.3, "dup": (rng.random() < 0.2 and qos > 0)}
         if mid is not None:
@@ -384,7 +391,7 @@ class Gen(object):
         if st == "connecting":
             acts = [("connack", 10)]
             if cfg["profile"] & 2:
-                acts.append(("publish", 4 if fam in ("persistent", "clean", "general", "qos2", "closing") else 1.5))
+                acts.append(("publish", 4 if fam in ("persistent", "clean", "general", "qos2", "closing", "ids") else 1.5))
             acts += [("fire", 1.0 if fam == "handshake" else 0.3), ("gate", 0.7 if fam in ("gate", "handshake") else 0.2),
                      ("advance", 0.5)]
             if F["close"]:
@@ -393,6 +400,13 @@ class Gen(object):
                 acts.append(("foreign", 1.5))
             if F["raw"]:
                 acts.append(("raw", 1.5))
+            if fam == "ids" and getattr(self, "_placed_c", 0) < 2:
+                s_ = L.session(addr)
+                pend = sorted(r.msgId for r in s_.reqs if r.pending and isinstance(r.msgId, int))
+                if pend and rng.random() < 0.5:
+                    self._placed_c = getattr(self, "_placed_c", 0) + 1
+                    tgt = rng.choice(pend)
+                    return {"op": "sim.set_id", "value": (tgt - 2) % 65535 + 1}
             k = _w(rng, acts)
             if k == "connack":
                 rcv = 0
@@ -492,6 +506,14 @@ class Gen(object):
             acts.append(("stall", 0.4))
         if F["stale_handle"] and len(w.by_addr.get(addr, [])) > 1:
             acts.append(("stale", 0.5))
+        if getattr(self, "_burst", 0) > 0 and P:
+            self._burst -= 1
+            return self.publish_step(addr, qos=0 if rng.random() < 0.9 else rng.randint(1, 2))
+        if F.get("burst") and P and s.fifo and rng.random() < 0.04:
+            # a long run of publishes while earlier ones are still held back
+            self._burst = rng.choice([8, 17, 33, 40])
+        if F.get("alias") and w.payload_refs and rng.random() < 0.08:
+            return {"op": "sim.mutate", "i": rng.randint(0, 2), "n": rng.choice([1, 5, 30])}
         if fam == "ids" and not getattr(self, "_placed", False) and any(r.pending for r in s.reqs) and rng.random() < 0.3:
             self._placed = True
             pend = sorted(r.msgId for r in s.reqs if r.pending and isinstance(r.msgId, int))
